@@ -53,6 +53,9 @@ class Plan:
         return cut(reply[: self.limit], self.sched), self.limit < len(reply)
 
 
+SEGMENT_GAP = 30.0     # virtual seconds between two TCP segments of one reply (slow link, busy peer)
+
+
 class ChunkSocket:
     def __init__(self, conn: refdc.Connection, plan: Plan) -> None:
         self.conn, self.plan = conn, plan
@@ -60,9 +63,14 @@ class ChunkSocket:
         self.eof = False
         self.in_target = False
         self.nreads = 0
+        self.timeout: t.Optional[float] = None
+        self.at_boundary = False          # the previous segment has been consumed completely, the next one has not arrived yet
 
     def settimeout(self, v: t.Any) -> None:
-        pass
+        self.timeout = v
+
+    def gettimeout(self) -> t.Optional[float]:
+        return self.timeout
 
     def sendall(self, data: bytes) -> None:
         reply = self.conn.feed(bytes(data))
@@ -82,12 +90,18 @@ class ChunkSocket:
             if not self.eof and not self.in_target:
                 raise MachineryError("client reads although no reply is outstanding")
             return b""
+        if self.at_boundary and self.in_target and self.timeout is not None and SEGMENT_GAP > self.timeout:
+            # virtual time: SEGMENT_GAP seconds pass between two segments of the reply; a blocking socket waits, a socket that
+            # still carries a shorter timeout gives up exactly as a real one would
+            raise TimeoutError("timed out")
         c = self.chunks[0]
         out = c[:n]
         if len(out) == len(c):
             self.chunks.pop(0)
+            self.at_boundary = bool(self.chunks)
         else:
             self.chunks[0] = c[n:]
+            self.at_boundary = False
         if self.in_target:
             self.plan.reads.append(len(out))
         return out
@@ -157,7 +171,9 @@ class ChunkNet:
         return refdc.Connection(self.dc, port, self.n)
 
     def create_connection(self, address: tuple, timeout: t.Any = None, *a: t.Any, **k: t.Any) -> ChunkSocket:
-        return ChunkSocket(self._conn(address[1]), self.plan)
+        sock = ChunkSocket(self._conn(address[1]), self.plan)
+        sock.timeout = timeout if isinstance(timeout, (int, float)) else None      # socket.create_connection(timeout=...) leaves it set
+        return sock
 
     async def open_connection(self, host: str, port: int = 0, **k: t.Any):
         reader = taps.CountingReader()
